@@ -326,9 +326,12 @@ package mhprimary
 //@   trusted T5 contract pending: converts a legacy single-file primary (chunkOldPrimary is under contract); no-op when there is none
 //@   modifies heap("freelist.FreeList"), ctx.$done
 
-//@ func findLastPrimary(basePath string, fileNum uint32) (last uint32, err error)
-//@   trusted probes primary file names upwards from fileNum with os.Stat
-//@   pure
+//@ func findLastPrimary(basePath string, fileNum uint32) (last uint32, err error)  property C02
+//@   ghost var gfound int = 0
+//@   ghost at after call os.Stat#0: gfound = gfound + ite($r1 == nil, 1, 0)
+//@   assert at before call os.Stat#0: @consecutive-names $a0 == fname(basePath, wrapu32(old(fileNum) + gfound))
+//@   internal ensures @last-existing err == nil && gfound > 0 ==> last == wrapu32(old(fileNum) + gfound - 1)
+//@   loop 0 invariant fileNum == wrapu32(old(fileNum) + gfound) && gfound >= 0 && (gfound > 0 ==> lastFound == wrapu32(old(fileNum) + gfound - 1))
 
 //@ func (mp *MultihashPrimary) StartGC(freeList *freelist.FreeList, interval time.Duration, timeLimit time.Duration, updateIndex UpdateIndexFunc)
 //@   trusted starts the collector goroutine (newGC); its body is verified separately (primaryGC.run)
